@@ -169,7 +169,7 @@ impl<E: FieldElement> EvaluationFrameExt<E> for &EvaluationFrame<E> {
 
     #[inline(always)]
     fn bitwise_flag(&self) -> E {
-        self.s(0) * binary_not(self.s_next(1))
+        self.s(0) * binary_not(self.s(1))
     }
 
     #[inline(always)]
